@@ -34,5 +34,10 @@ func Memory(owner interface{}, actual uint64) uint64 { return actual }
 // Dialer returns nil (use the default dialer).
 func Dialer(dest string) func(context.Context, string) (net.Conn, error) { return nil }
 
+// ServerDialer returns nil (use the default dialer).
+func ServerDialer(owner interface{}, dest string) func(string, time.Duration) (net.Conn, error) {
+	return nil
+}
+
 // HTTPTransport returns nil (use the default transport).
 func HTTPTransport() http.RoundTripper { return nil }
